@@ -30,9 +30,9 @@ def table(name, shape):
     return AT(ax, d)
 
 
-def check_obs_gather(G):
+def check_obs_gather(G, eq_keys=('nu', 'th')):
     """input, value and every observed parameter of a batch are gathered with the SAME mini-batch of row indices"""
-    gen = G.obs(eq_keys=('nu', 'th'))
+    gen = G.obs(eq_keys=eq_keys)
     new, batch = freeze(gen).obs_batch()
     pred, k2, s2, i2 = spec_step(gen.fields['key'], gen.fields['indices'], gen.fields['curr_idx'], K('bo'), K('n_obs'), None)
     mb = Sym('dynamic_slice', fz(s2), (fz(i2),), (fz(K('bo')),))
@@ -62,6 +62,9 @@ def run(chk):
     # ---------------- R1 gather
     go_gather = lambda: check_obs_gather(G)
     chk.run("C15.R1", f"{MOD}:DataGeneratorObservations.obs_batch", {}, go_gather, construct="aligned gather")
+    # observed parameters given in a non-alphabetical order: each keeps its own table (pytree flattening sorts the keys)
+    chk.run("C15.R1", f"{MOD}:DataGeneratorObservations.obs_batch", {"observed_eq_params_order": ["th", "nu"]},
+            (lambda: check_obs_gather(G, ('th', 'nu'))), construct="aligned gather")
 
     # ---------------- R1 constructor
     for sharding in (None, 'device'):
@@ -168,11 +171,11 @@ def run(chk):
     chk.run("C15.R2", f"{MOD}:DataGeneratorParameter.generate_data", {"key_in_both": True}, go_prio, construct="table priority")
 
     # grid method: every key gets the regular grid of ITS OWN range (concrete small count: the grid vector is the list of its points)
-    for m in (3, 4):
-        def go_grid(m=m):
+    for m, order in ((3, ('nu', 'th')), (4, ('nu', 'th')), (3, ('th', 'nu'))):
+        def go_grid(m=m, order=order):
             from fractions import Fraction
             from ..alg import lift
-            gen = G.cls("DataGeneratorParameter")(Sym('key'), m, 2, {"nu": (K('nu_lo'), K('nu_hi')), "th": (K('th_lo'), K('th_hi'))}, 'grid')
+            gen = G.cls("DataGeneratorParameter")(Sym('key'), m, 2, {k_: (K(f'{k_}_lo'), K(f'{k_}_hi')) for k_ in order}, 'grid')
             for k_ in ('nu', 'th'):
                 v = gen.fields['param_n_samples'][k_]
                 if isinstance(v, Sym):
@@ -201,7 +204,23 @@ def run(chk):
                 if len(cs) != m:
                     raise Violation(f"grid samples[{k_}]", f"{len(cs)} distinct samples", f"{m} distinct grid points")
             return "each key: the regular grid of its own range"
-        chk.run("C15.R2", f"{MOD}:DataGeneratorParameter.generate_data", {"method": "grid", "n": m}, go_grid, construct="grid per key")
+        chk.run("C15.R2", f"{MOD}:DataGeneratorParameter.generate_data", {"method": "grid", "n": m, "param_ranges_order": list(order)}, go_grid,
+                construct="grid per key")
+
+    # uniform method, two keys with their own ranges, both insertion orders of param_ranges
+    for order in (('nu', 'th'), ('th', 'nu')):
+        def go_unif(order=order):
+            from .C08 import expect_draw
+            gen = G.cls("DataGeneratorParameter")(Sym('key'), 6, 2, {k_: (K(f'{k_}_lo'), K(f'{k_}_hi')) for k_ in order}, 'uniform')
+            for k_ in order:
+                v = to_at(gen.fields['param_n_samples'][k_])
+                if tuple(v.axes) != (6, 1):
+                    raise Violation(f"uniform samples[{k_}]", f"axes {v.axes}", "(6, 1)")
+                for p_ in v.entries():
+                    expect_draw(p_, K(f'{k_}_lo'), K(f'{k_}_hi'), f"samples[{k_!r}]")
+            return "each key drawn uniformly in its own range"
+        chk.run("C15.R2", f"{MOD}:DataGeneratorParameter.generate_data", {"method": "uniform", "param_ranges_order": list(order)}, go_unif,
+                construct="uniform per key")
 
     # a parameter mini-batch is a slice of the key's own sample table (so every entry is a value of that table / range)
     from .C09 import check_param_draw
